@@ -73,6 +73,9 @@ type (
 )
 
 func nowUnix() int64 {
+	if v, ok := verifNow(); ok {
+		return v
+	}
 	return time.Now().Unix()
 }
 
@@ -114,7 +117,9 @@ func (hc *httpCache) Get() (status Status, response *HTTPResponse) {
 	// 如果done不为空，表示需要等待确认当前请求状态
 	if done != nil {
 		// TODO 后续再考虑是否需要添加timeout（proxy部分有超时，因此暂时可不添加)
+		verifPoint("get.registered")
 		<-done
+		verifPoint("get.woken")
 		// 完成后重新获取当前状态与响应
 		// 此时状态只可能是hit for pass 或者 hit
 		// 而此两种状态的数据缓存均不会立即失效，因此可以从hc中获取
@@ -215,6 +220,7 @@ func (hc *httpCache) get() (status Status, done chan struct{}, data *HTTPRespons
 	if hc.status == StatusUnknown {
 		// 如果从缓存中读取失败，暂忽略出错信息
 		err := hc.initFromStore()
+		verifPoint("get.loaded")
 		// 如果是无数据，则不输出日志
 		if err != nil && err != store.ErrNotFound {
 			log.Default().Error("init from store fail",
@@ -257,6 +263,7 @@ func (hc *httpCache) get() (status Status, done chan struct{}, data *HTTPRespons
 func (hc *httpCache) HitForPass(ttl int) {
 	hc.mu.Lock()
 	defer hc.mu.Unlock()
+	verifPoint("hfp.enter")
 	if ttl <= 0 {
 		ttl = defaultHitForPassSeconds
 	}
@@ -267,7 +274,9 @@ func (hc *httpCache) HitForPass(ttl int) {
 	for _, ch := range list {
 		ch <- struct{}{}
 	}
+	verifPoint("hfp.released")
 	err := hc.saveToStore()
+	verifPoint("hfp.saved")
 	if err != nil {
 		log.Default().Error("save cache to store fail",
 			zap.String("category", "hitForPass"),
@@ -281,6 +290,7 @@ func (hc *httpCache) HitForPass(ttl int) {
 func (hc *httpCache) Cacheable(resp *HTTPResponse, ttl int) {
 	hc.mu.Lock()
 	defer hc.mu.Unlock()
+	verifPoint("cacheable.enter")
 	// 如果是可缓存数据，则选择默认的best compression
 	resp.CompressSrv = compress.BestCompression
 	_ = resp.Compress()
@@ -293,7 +303,9 @@ func (hc *httpCache) Cacheable(resp *HTTPResponse, ttl int) {
 	for _, ch := range list {
 		ch <- struct{}{}
 	}
+	verifPoint("cacheable.released")
 	err := hc.saveToStore()
+	verifPoint("cacheable.saved")
 	if err != nil {
 		log.Default().Error("save cache to store fail",
 			zap.String("category", "cacheable"),
